@@ -246,7 +246,14 @@ func genC06Case(rt *rapid.T) c06Case {
 	}
 	// signature list
 	ns := len(c.Signers)
-	switch rapid.IntRange(0, 7).Draw(rt, "sigCount") {
+	// single-defect cases: when the signer list is what is wrong (or the count), everything else is genuine
+	// in two cases out of three - one signature per listed signer, by that signer, over the presented data
+	onlySignerDefect := (len(notes) > 0 || cnt != c.T) && rapid.IntRange(0, 2).Draw(rt, "onlySignerDefect") > 0
+	sigCountSel := rapid.IntRange(0, 7).Draw(rt, "sigCount")
+	if onlySignerDefect {
+		sigCountSel = 7
+	}
+	switch sigCountSel {
 	case 0:
 		ns = rapid.IntRange(0, c.N+1).Draw(rt, "ns")
 	case 1:
@@ -262,6 +269,9 @@ func genC06Case(rt *rapid.T) c06Case {
 	for i := 0; i < ns; i++ {
 		l := fmt.Sprintf("sig%d", i)
 		kind := rapid.SampledFrom([]string{"listed", "listed", "listed", "listed", "listed", "listed", "other-member", "outsider", "other-tuple", "random", "short", "empty"}).Draw(rt, l)
+		if onlySignerDefect {
+			kind = "listed"
+		}
 		spec := sigSpec{Kind: kind, Signer: -1}
 		listed := -1
 		if i < len(c.Signers) && c.Signers[i] < uint64(c.N) {
